@@ -598,6 +598,9 @@ def run(model, rep, tier):
     from rules.c16 import check_shared_alloc
     from rules.c03 import _Rename
     check_shared_alloc(model, _Rename(rep, {'R16.4': 'R02.8'}))
+    from rules.c16 import check_builder
+    rep.rule('R02.12', 'parallel configuration: every generated statement that touches a shared array is emitted inside the lock of that array (= R16.3)')
+    check_builder(model, _Rename(rep, {'R16.3': 'R02.12'}))
     rep.require('R02.1', 15)
     rep.require('R02.2', 7)
     rep.require('R02.3', 8)
